@@ -478,6 +478,11 @@ CONNECT) then a generated API call mix. Oracle: no panic, termination decided by
         true
     }
 
+    fn cpu_budget_secs() -> Option<u64> {
+        // the heaviest generated case (a megabyte of nested JSON) needs well under a second of CPU
+        Some(40)
+    }
+
     fn extra_evidence(tier: Tier) -> serde_json::Value {
         let l = tier.pick(5u32, 7);
         let strings: u64 = (0..=l).map(|k| 9u64.pow(k)).sum();
@@ -736,6 +741,11 @@ CONNECT) then a generated API call mix. Oracle: no panic, termination decided by
             }
         }
         let peak = run.peak;
+        // one exchange per connection, and at most max_redirections (5 by default) + 1 of them: a client that keeps opening
+        // connections for one finite request is not going to stop (every case offers eight scripted connections)
+        if !matches!(case, Case::Endless { .. }) && run.dials > 6 {
+            return Outcome::fail(format!("C05:{sig_class}:connections-unbounded"), format!("{} connections were opened for one request (at most 6 can be asked for by redirects)", run.dials));
+        }
         if run.over_limit {
             return Outcome::fail(
                 format!("C05:{sig_class}:unbounded-pull"),
